@@ -103,6 +103,7 @@ def _mech(m, pos):
     while n is not None and n is not scope:
         if n.type in ('testlist_comp', 'dictorsetmaker', 'argument') and any(c.type in ('comp_for', 'sync_comp_for') for c in n.children):
             d['in_comprehension'] = True
+            d['innermost_comprehension'] = 'genexp' if (n.type == 'argument' or (n.type == 'testlist_comp' and n.parent.children[0] == '(')) else 'list_set_dict'
             break
         n = n.parent
     # facts about the innermost function: an await inside a local annotation (CPython's symbol table then treats the function as a
